@@ -33,7 +33,12 @@ func main() {
 	flag.StringVar(&cfg.replay, "replay", "", "replay descriptor (property specific)")
 	isoChild := flag.Bool("isolated-child", false, "internal: child process of an isolated run")
 	hungArg := flag.String("hung", "", "internal: indexes of calls that hung in earlier children")
+	raceChildFlag := flag.Bool("race-child", false, "internal: concurrent run under the race detector")
 	flag.Parse()
+	if *raceChildFlag {
+		raceChild(cfg.seed, cfg.tier)
+		return
+	}
 	g, ok := generators[cfg.prop]
 	if !ok {
 		fmt.Fprintf(os.Stderr, "unknown property %q\n", cfg.prop)
